@@ -24,6 +24,22 @@ CHECKS = {
         design="DESIGN.md section 3, C01; Appendix A; Changes after round 0",
         engine="symgo+vlog",
         technique="translation validation by SMT: generated Verilog (own Verilog->transition-relation translator) vs. go/ssa symbolic execution of the ISA simulator, one instruction from an arbitrary state, decided by z3"),
+    "C02": dict(
+        category="translation_validation",
+        text=("Part (a), WIRING, for every bond graph of a seeded family built through the real Add_input/Add_output/Add_processor/Add_bond "
+              "(up to 3 processors, N,M <= 2, external I/O, fan-out): (1) the top-level Verilog written by the real Write_verilog_main is "
+              "elaborated by /verif/vlog with processors as black boxes whose output pins are free variables, and z3 decides for all pin "
+              "values that every bonded consumer data/valid pin and every external output equals its producer, and every bonded producer's "
+              "received line equals the AND of the received lines of exactly the inputs bonded to it; (2) the same relation is decided for "
+              "the simulator's interconnect by symbolic execution of bondmachine.VM.Step (two ticks, processors running 'j 0', all port "
+              "values symbolic). Stream equality between HDL and simulation over programs, input streams and stalls (part (b)) is NOT "
+              "covered by this check."),
+        note=("Trusted: z3, /verif/vlog, /verif/symgo, cmd/bmnative. Graphs with an unbonded processor input are outside the family "
+              "(the generated top level then references an undeclared wire and does not elaborate: C18-class). Shared objects, "
+              "etherbond/udpbond and board top files are outside."),
+        design="DESIGN.md section 3, C02 (a)",
+        engine="vlog+symgo",
+        technique="generated top-level netlist -> combinational terms (own Verilog translator) and go/ssa symbolic execution of the simulator's interconnect, both checked against the bond-graph relation by z3"),
     "C03": dict(
         category="proof",
         text=("Bounded, per architecture and opcode, decided by SMT: the real Arch.Assembler_process_line, each Opcode.Assembler/"
